@@ -175,6 +175,28 @@ func cmdCheck(argv []string) int {
 		u := e.verify(k, e.cs.Funcs[k])
 		units = append(units, u)
 		units = append(units, u.spawnUnits...)
+		// function literals under a `closure n` sub-contract are units of their own
+		var ords []int
+		for n := range e.cs.Funcs[k].Closures {
+			ords = append(ords, n)
+		}
+		sort.Ints(ords)
+		for _, n := range ords {
+			cc := e.cs.Funcs[k].Closures[n]
+			ck, err := e.prepareClosure(k, n)
+			if err != nil {
+				cu := &Unit{eng: e, name: shortFuncName(k) + fmt.Sprintf("$%d", n), contract: cc}
+				cu.rejected = err.Error()
+				units = append(units, cu)
+				continue
+			}
+			cc.Key = ck
+			cu := e.verify(ck, cc)
+			units = append(units, cu)
+			if *verbose {
+				fmt.Printf("  %s: %d obligations, rejected=%q\n", cu.name, len(cu.obls), cu.rejected)
+			}
+		}
 		if *verbose {
 			fmt.Printf("  %s: %d obligations, rejected=%q\n", u.name, len(u.obls), u.rejected)
 		}
